@@ -316,6 +316,9 @@ M_BTMOD.harnesses.append(H("u12_codec_header_and_null_child", "U12"))
 M_BTMOD.harnesses.append(H("u19_tree_column_maintenance_reaches_every_table", "U19", kind="bounded", bound="a btree column with 3 value tables"))
 M_COLUMN.harnesses.append(H("u19_hash_column_maintenance_reaches_every_table", "U19", kind="bounded", bound="a hash column with 1 value table"))
 
+M_BTTREE = KModule("btree_tree", "src/btree/btree.rs", "verif_btree_tree", "btree_tree.rs")
+M_BTTREE.harnesses.append(H("u23_root_bookkeeping", "U23", kind="bounded", shape="BTree::write_sorted_changes, one change, scripted child outcome (no-op / root split / root collapse)",
+                            bound="one change per call; Node::{change,need_remove_root}, BTree::fetch_root, BTreeTable::{write_node_plan,write_plan_remove_node} by contract"))
 M_DB = KModule("db", "src/db.rs", "verif_db", "db.rs", deps=(M_LOG,))
 M_DB.harnesses.append(H("u21_replay_applies_only_the_next_record_in_sequence", "U21", kind="bounded",
                         shape="DbInner::enact_logs(validation) on one empty record with arbitrary record id and arbitrary last-enacted id",
@@ -323,7 +326,7 @@ M_DB.harnesses.append(H("u21_replay_applies_only_the_next_record_in_sequence", "
 
 # units whose harnesses call the real code without recorder / contract stubs: Kani's counterexample replays natively
 NATIVE_REPLAY_UNITS = {"U1", "U2", "U4", "U5", "U7", "U11"}
-KMODULES = {"index": M_INDEX, "table": M_TABLE, "log": M_LOG, "column": M_COLUMN, "ref_count": M_REFCOUNT, "btree_node": M_BTNODE, "btree_mod": M_BTMOD, "db": M_DB}
+KMODULES = {"index": M_INDEX, "table": M_TABLE, "log": M_LOG, "column": M_COLUMN, "ref_count": M_REFCOUNT, "btree_node": M_BTNODE, "btree_mod": M_BTMOD, "db": M_DB, "btree_tree": M_BTTREE}
 
 
 def kmodule_of_unit(unit):
@@ -386,7 +389,7 @@ PROPS["C06"] = {
     "does_not_cover": ["real part size 4096 / MiB values", "lz4 / snappy themselves", "write_existing_value_plan tier-move path", "reads through the mmap'd file (only the log view is modelled)"],
 }
 PROPS["C14"] = {
-    "kani_units": ["U14", "U3", "U1", "U15", "U19"],
+    "kani_units": ["U14", "U3", "U1", "U15", "U19", "U23"],
     "verus_units": [],
     "level": "other",
     "technique": "Kani/CBMC contracts on the real free-list operations and index page update (bounded tables / complete page proofs)",
@@ -446,7 +449,7 @@ PROPS["C07"] = {
 }
 
 PROPS["C04"] = {
-    "kani_units": ["U12"],
+    "kani_units": ["U12", "U23"],
     "verus_units": [],
     "level": "other",
     "technique": "Kani/CBMC contracts on the real btree node operations (array operations complete over ORDER=8; rebalance with child I/O replaced by contracts)",
@@ -484,6 +487,7 @@ UNIT_META = {
     "U21": {"functions": ["db::DbInner::enact_logs (validation mode: sequence gate, validate-then-apply order)"],
             "assumes": ["Log::{read_next,end_read,clear_replay_logs} and LogReader::{next,reset} replaced by contracts; the record has no actions"]},
     "U22": {"functions": ["column::HashColumn::{trigger_reindex,drop_index}"], "assumes": ["IndexTable::drop_file replaced by a counter (file removal)"]},
+    "U23": {"functions": ["btree::btree::BTree::write_sorted_changes"], "assumes": ["Node::change / need_remove_root / BTree::fetch_root / BTreeTable::write_node_plan / write_plan_remove_node replaced by contracts (scripted outcomes)"]},
     "U11": {"functions": ["column::{unpack_node_data,unpack_node_children,packed_node_size,packed_child_count}"], "assumes": []},
     "U14": {"functions": ["table::ValueTable::{clear_slot,next_free,read_next_free,complete_plan,write_remove_plan,clear_chain}"], "assumes": ["LogWriter ghost view"]},
     "index_search": {"functions": ["index::Entry::*", "index::Address::*", "index::IndexTable::{chunk_index,find_entry_base}"], "assumes": ["read_entry contract (external_body; proved by Kani U1.read_entry_is_le_word)"]},
